@@ -228,6 +228,9 @@ func HarnessC08Reuse() {
 	idx3 := d3.open(false, nil)
 	r1 := rowsOf(d1)
 	r2 := rowsOf(d2)
+	// an execution must not leave anything running behind that touches the Query later
+	// (the race analysis sees accesses of goroutines the executions start)
+	verifLockset(true)
 	for _, which := range []int{1, 1, 2, 3, 1, 2} {
 		var res *Result
 		var err error
@@ -272,6 +275,8 @@ func HarnessC08Reuse() {
 		verifAssert(x.Column == "r" && x.Value == "r0" && y.Column == "a" && y.Value == "a0", "C08: Execute changed a comparison of the query's expression")
 		verifAssert(q.Expr.String() == givenText, "C08: Execute changed the query's expression (textual form differs)")
 	}
+	verifLockset(false)
+	verifRaceFree("C08: an execution left a goroutine behind that accesses the Query while a later execution runs")
 	// the caller changes a comparison of the same Query value and executes it again: the
 	// result is that of a freshly constructed query equal to the changed one
 	y.Value = "a1"
@@ -300,6 +305,13 @@ func HarnessC08Reuse() {
 			return
 		}
 		verifCheckGroups(d, given, changed(d), res, "C08: a Query value changed by the caller and executed again differs from a fresh equal query")
+	}
+	// the caller empties the group-by list of the same Query value: no groups any more
+	if len(given) > 0 {
+		q.GroupBy = nil
+		res, err := idx1.Execute(q)
+		verifAssert(err == nil && res != nil && len(res.Groups) == 0, "C08: a Query value whose group-by list the caller emptied still returns the groups of an earlier execution")
+		q.GroupBy = list
 	}
 	// the caller takes an operand away in place (the tree becomes incomplete under the same
 	// root): like a freshly constructed equal query, the execution fails with an error
